@@ -226,39 +226,96 @@ def gen_C07(rng, tier):
 SAFE_UN = ['sin', 'cos', 'tanh', 'sinh']
 
 def dag_prog(rng, name, nnodes, with_broadcast, tier):
-    """random DAG over same-shape tensors; every new node may use any earlier node (fan-out, reconvergence)"""
+    """random DAG; every new node may use ANY earlier node (fan-out, reconvergence, the same operand twice in
+       one operation); operations change shapes (concat, slice, patch, reshape, transpose, reductions, matmul)"""
     p = Prog(name)
     shape = rand_shape(rng, 3, 3, 0)
     n = prod(shape)
-    nodes = []   # (name, tracked_leaf?)
+    nodes = []      # names
+    shp = {}        # name -> shape
     nleaves = rng.randint(1, 3)
     for j in range(nleaves):
         tracked = (j == 0) or rng.random() < 0.7
-        nodes.append(p.tensor(shape, [rng.uniform(0.5, 1.5) for _ in range(n)], tracked=tracked))
+        t = p.tensor(shape, [rng.uniform(0.5, 1.5) for _ in range(n)], tracked=tracked)
+        nodes.append(t); shp[t] = list(shape)
     leaves = list(nodes)
-    fan = 0
     used = {}
-    for j in range(nnodes):
-        kind = rng.random()
+    def pick():
         a = rng.choice(nodes[-4:] if rng.random() < 0.6 else nodes)
         used[a] = used.get(a, 0) + 1
-        if kind < 0.25:
-            r = p.bind('%s %s' % (rng.choice(SAFE_UN), a))
-        elif kind < 0.35:
-            r = p.bind('scale %s %s' % (a, f2b(rng.choice([0.5, -1.0, 2.0, 1.25]))))
-        elif kind < 0.40:
-            r = p.bind('pow %s %s' % (a, f2b(2.0)))
-        elif kind < 0.9 or not with_broadcast or not shape:
-            b = rng.choice(nodes)
-            used[b] = used.get(b, 0) + 1
-            op = rng.choice(['add', 'sub', 'mul', 'add', 'mul'])
-            r = p.bind('%s %s %s' % (op, a, b))
-        else:
-            d = rng.randrange(len(shape))
-            s = p.bind('sumalong %s %d' % (a, d))
-            u = p.bind('unsqueeze %s %d' % (s, d))
-            r = p.bind('mul %s %s' % (a, u))      # implicit expansion of u
+        return a
+    def same_shape(a):
+        c = [x for x in nodes if shp[x] == shp[a]]
+        b = rng.choice(c)
+        used[b] = used.get(b, 0) + 1
+        return b
+    for j in range(nnodes):
+        kind = rng.random()
+        a = pick()
+        sa = shp[a]
+        r = None
+        if kind < 0.18:
+            r = p.bind('%s %s' % (rng.choice(SAFE_UN), a)); shp[r] = list(sa)
+        elif kind < 0.25:
+            r = p.bind('scale %s %s' % (a, f2b(rng.choice([0.5, -1.0, 2.0, 1.25])))); shp[r] = list(sa)
+        elif kind < 0.29:
+            r = p.bind('pow %s %s' % (a, f2b(2.0))); shp[r] = list(sa)
+        elif kind < 0.60:
+            b = same_shape(a)
+            op = rng.choice(['add', 'sub', 'mul', 'add', 'mul', 'elmax'])
+            if op == 'elmax' and b == a: op = 'add'
+            r = p.bind('%s %s %s' % (op, a, b)); shp[r] = list(sa)
+        elif kind < 0.70 and sa:
+            # concat of 2-3 operands, possibly the same one twice, possibly an untracked constant first
+            d = rng.randrange(len(sa))
+            ops = [a]
+            for _ in range(rng.randint(1, 2)):
+                c = [x for x in nodes if len(shp[x]) == len(sa) and all(shp[x][i] == sa[i] for i in range(len(sa)) if i != d)]
+                b = rng.choice(c); used[b] = used.get(b, 0) + 1; ops.append(b)
+            if rng.random() < 0.4: ops.append(a); used[a] += 1
+            if rng.random() < 0.3:
+                cs = list(sa); cs[d] = rng.randint(1, 2)
+                k = p.tensor(cs, [rng.uniform(-1, 1) for _ in range(prod(cs))]); shp[k] = cs
+                ops.insert(rng.randrange(len(ops)), k)
+            rng.shuffle(ops)
+            r = p.bind('concat %s %d' % (','.join(ops), d))
+            rs = list(sa); rs[d] = sum(shp[x][d] for x in ops); shp[r] = rs
+            p.tag('concat')
+            # a non-uniform weighting so that block mix-ups become visible
+            w = p.tensor(rs, [0.5 + 0.25 * (i % 7) for i in range(prod(rs))]); shp[w] = rs
+            r2 = p.bind('mul %s %s' % (r, w)); shp[r2] = rs
+            nodes.append(r); r = r2
+        elif kind < 0.76 and sa:
+            idx = rand_index(rng, sa)
+            r = p.bind('slice %s %s' % (a, ranges(idx))); shp[r] = sliced_shape(sa, idx); p.tag('slice')
+        elif kind < 0.80 and sa:
+            d = rng.randrange(len(sa))
+            r = p.bind('%salong %s %d' % (rng.choice(['sum', 'mean', 'avg']), a, d)); shp[r] = sa[:d] + sa[d + 1:]; p.tag('reduce')
+        elif kind < 0.84:
+            f = rng.choice(factorizations(prod(sa), 3))
+            r = p.bind('reshape %s %s' % (a, ints(f))); shp[r] = list(f); p.tag('reshape')
+        elif kind < 0.88 and len(sa) >= 2:
+            r = p.bind('transpose %s' % a); shp[r] = sa[:-2] + [sa[-1], sa[-2]]; p.tag('transpose')
+            if rng.random() < 0.5:
+                m = p.bind('matmul %s %s' % (a, r)); shp[m] = sa[:-2] + [sa[-2], sa[-2]]
+                nodes.append(r); used[r] = 1; r = m; p.tag('matmul')
+        elif kind < 0.92 and sa:
+            # patch a block of `a` with a slice of another same-shape node
+            b = same_shape(a)
+            blk = [(0, rng.randint(1, sa[0]))]
+            s_ = p.bind('slice %s %s' % (b, ranges(blk))); shp[s_] = sliced_shape(sa, blk)
+            r = p.bind('patch %s %s %s' % (a, ranges(blk if rng.random() < 0.5 else []), s_)) if blk[0][1] == sa[0] or True else None
+            shp[r] = list(sa); nodes.append(s_); p.tag('patch')
+        elif with_broadcast and sa:
+            d = rng.randrange(len(sa))
+            s_ = p.bind('sumalong %s %d' % (a, d)); shp[s_] = sa[:d] + sa[d + 1:]
+            u = p.bind('unsqueeze %s %d' % (s_, d)); shp[u] = sa[:d] + [1] + sa[d + 1:]
+            r = p.bind('mul %s %s' % (a, u)); shp[r] = list(sa)      # implicit expansion of u
+            nodes.append(s_); nodes.append(u)
             p.tag('has-broadcast')
+        else:
+            b = same_shape(a)
+            r = p.bind('mul %s %s' % (a, b)); shp[r] = list(sa)
         nodes.append(r)
     fan = sum(1 for v in used.values() if v > 1)
     p.tag('fanout%d' % min(fan, 5), 'nodes%d' % (10 * (nnodes // 10)))
